@@ -99,34 +99,33 @@ Example rolling_default_window_is_delayed_by_one :
 Proof. vm_compute. split; reflexivity. Qed.
 
 (* ---------------------------------------------------------------------------
-   4. smooth.lp keeps the length for every pad > 0 (pad = m * 2^-e as a float64,
-   lpad = int(ceil(float64(n * pad)))) and any length-preserving filter ... *)
+   4. smooth.lp keeps the length for EVERY pad >= 0 (pad = m * 2^-e as a float64, m = 0 is
+   pad = 0; lpad = int(ceil(float64(n * pad)))) and any length-preserving filter
+   (since fix cea07c9 the crop is ts_[lpad : len - lpad]; before it pad = 0 gave an empty result) ... *)
 Theorem C20_lp_keeps_length :
   forall (A : Type) (filt : list A -> list A) (m e : Z) (x : list A),
-  (forall l, length (filt l) = length l) -> 0 < m -> 0 <= e -> x <> [] ->
-  0 < lpad_of (Z.of_nat (length x)) m e /\
+  (forall l, length (filt l) = length l) -> 0 <= m -> 0 <= e ->
+  0 <= lpad_of (Z.of_nat (length x)) m e /\
+  (0 < m -> x <> [] -> 0 < lpad_of (Z.of_nat (length x)) m e) /\
   length (lp filt (lpad_of (Z.of_nat (length x)) m e) x) = length x.
 Proof.
-  intros A filt m e x Hf Hm He Hx.
-  assert (0 < lpad_of (Z.of_nat (length x)) m e).
-  { apply lpad_of_pos; try assumption. destruct x; [contradiction | cbn [length]; lia]. }
-  split; [assumption | now apply lp_keeps_length].
+  intros A filt m e x Hf Hm He.
+  assert (H0 : 0 <= lpad_of (Z.of_nat (length x)) m e) by (apply lpad_of_nonneg; lia).
+  split; [exact H0|]. split; [|now apply lp_keeps_length].
+  intros Hm' Hx. apply lpad_of_pos; try assumption. destruct x; [contradiction | cbn [length]; lia].
 Qed.
 Print Assumptions C20_lp_keeps_length.
 
-(* ... and returns constants unchanged when the filter does (DC gain 1). *)
+(* ... and returns constants unchanged when the filter does (DC gain 1), for every pad length >= 0. *)
 Theorem C20_lp_constant :
   forall (A : Type) (filt : list A -> list A) (lpad : Z) (c : A) (n : nat),
-  (forall k, filt (repeat c k) = repeat c k) -> 0 < lpad ->
+  (forall k, filt (repeat c k) = repeat c k) -> 0 <= lpad ->
   lp filt lpad (repeat c n) = repeat c n.
 Proof. intros A. exact (@lp_constant A). Qed.
 Print Assumptions C20_lp_constant.
 
-(* F-C20-a: with pad = 0 the result is EMPTY whatever the input (ts_[0:-0]). *)
-Theorem C20_lp_pad_zero_refuted : forall (A : Type) (filt : list A -> list A) (x : list A),
-  lpad_of (Z.of_nat (length x)) 0 0 = 0 /\ lp filt 0 x = [].
-Proof. intros A filt x. split; [unfold lpad_of; rewrite Z.mul_0_r; reflexivity | apply lp_pad_zero_empty]. Qed.
-Print Assumptions C20_lp_pad_zero_refuted.
+Example lp_pad_zero_example : lp (fun t => t) (lpad_of 4 0 0) [7; 8; 9; 10] = [7; 8; 9; 10].
+Proof. vm_compute. reflexivity. Qed.
 
 (* ---------------------------------------------------------------------------
    5. non_uniform_savgol: over any field, for ANY abscissae, samples of a polynomial
